@@ -49,7 +49,7 @@ PROPS = {
     ),
     "C24": dict(
         verus=["pngunfilter"],
-        standins=["png-grid"],
+        standins=["png-grid", "image-alpha"],
         kani=[K("c24_paeth_predictor_png_spec", "graphics/png_decoder.rs", "paeth_predictor")],
         not_decided="inflate (dependency), unfilter_row pending, bit-depth expansion, palettes, tRNS, interlace, XObject assembly, SMask",
     ),
